@@ -72,13 +72,14 @@ class Profile:
     allow_host_stream_arg: bool = False
     with_bw: bool = True
     min_host_events: int = 1
+    n_pad: Tuple[int, int] = (0, 0)              # extra small host ops on their own thread (pushes row ids past 127 / 32767)
 
 
 class Gen:
     def __init__(self, rng: random.Random, prof: Profile):
         self.rng = rng
         self.p = prof
-        self.next_corr = rng.choice([1, 100, 5000])
+        self.next_corr = rng.choice([0, 1, 100, 5000])
         self.next_ext = 1
 
     # ---- host forest -------------------------------------------------------------------
@@ -299,6 +300,10 @@ class Gen:
         for e in host:
             e.pop("_launch", None)
             e.pop("_sync", None)
+        npad = rng.randint(*p.n_pad)
+        for k in range(npad):
+            host.append({"ph": "X", "cat": "cpu_op", "name": rng.choice(CPU_OPS), "pid": host_pid, "tid": 424242,
+                         "ts": (k * 2) % max(1, T), "dur": 0 if T < 2 * npad else 1, "args": {"External id": self.next_ext + k}})
         events = host + dev
         # first entry: host operator without correlation
         first = {"ph": "X", "cat": "cpu_op", "name": "aten::zeros", "pid": host_pid, "tid": 77777,
@@ -414,6 +419,7 @@ _reg(Profile(name="comm_overlap", device="free", n_free_kernels=(2, 12), tmax_ch
              kernel_names=("ncclKernel_AllReduce_RING_LL_Sum_float(ncclWorkElem)", "ncclDevKernel_AllGather_RING", "nccl:all_reduceKernel",
                            "ampere_sgemm_128x64_nn", "elementwise", "ncclFoo", "xMemcpy", "Memcpy DtoD (Device -> Device)", "barSync",
                            "sm80_xmma_gemm", "ncclKernel_x")))
+_reg(Profile(name="loader_pad", n_steps=(0, 3), n_ranks=(1, 2), n_pad=(125, 150), p_launch=0.5, p_sync=0.3))
 _reg(Profile(name="loader_mix", n_steps=(0, 3), n_ranks=(1, 3), p_nonevents=0.9, p_string_pid_span=0.6, p_missing_kernel=0.2, p_orphan_kernel=0.3,
              p_sync=0.5, allow_host_stream_arg=True))
 _reg(Profile(name="steps_mix", n_steps=(0, 5), n_ranks=(1, 3), tmax_choices=(12, 24, 40, 110, 600), p_missing_kernel=0.15, p_orphan_kernel=0.2,
